@@ -98,6 +98,14 @@ pub fn corpus() -> Vec<Input> {
     //    parameter list from the call sites it sees)
     add("ecl07-conflicting-call-signatures", "truecl", "th07", vec![], "void callee(int a) { $REG[10000] = a; }\nvoid c1() { $REG[10037] = 3; ins_41(callee); }\nvoid c2() { %REG[10041] = 2.5; ins_41(callee); }\nvoid c3() { $REG[10037] = 1; $REG[10038] = 2; ins_41(callee); }\nvoid c4() { $REG[10037] = 1; %REG[10041] = 2.0; %REG[10042] = 3.0; ins_41(callee); }\nvoid c5() { callee2(1, 2.0); callee(7); }\nvoid callee2(int a, float x) { $REG[10000] = a; }\nvoid c6() { %REG[10041] = 1.0; ins_41(callee2); }\nscript timeline0 {}\n".into(), None, true);
     add("ecl08-conflicting-call-signatures", "truecl", "th08", vec![], "void callee(int a) { $REG[10000] = a; }\nvoid c1() { $REG[10061] = 3; ins_52(callee); }\nvoid c2() { %REG[10065] = 2.5; ins_52(callee); }\nvoid c3() { $REG[10061] = 1; $REG[10062] = 2; ins_52(callee); }\nvoid c4() { $REG[10061] = 1; %REG[10065] = 2.0; %REG[10066] = 3.0; ins_52(callee); }\nvoid c5() { callee2(1, 2.0); callee(7); }\nvoid callee2(int a, float x) { $REG[10000] = a; }\nvoid c6() { %REG[10065] = 1.0; ins_52(callee2); }\nscript timeline0 {}\n".into(), None, true);
+    // -- old ECL has two languages in one mapfile (subs, timelines): the same opcode numbers declared in both, each with
+    //    something to report (unknown enums; attributes the format does not consume; unknown intrinsic names)
+    add("ecl06-two-language-unknown-enums", "truecl", "th06", vec![], "void sub0() { ins_0(); }\nscript timeline0 {}\n".into(),
+        Some("!eclmap\n!ins_signatures\n9001 S(enum=\"NopeE1\")\n9002 S(enum=\"NopeE2\")\n9003 S(enum=\"NopeE3\")\n!timeline_ins_signatures\n9001 S(enum=\"NopeT1\")\n9002 S(enum=\"NopeT2\")\n9003 S(enum=\"NopeT3\")\n"), false);
+    add("ecl08-two-language-unknown-enums", "truecl", "th08", vec![], "void sub0() { ins_0(); }\nscript timeline0 {}\n".into(),
+        Some("!eclmap\n!timeline_ins_signatures\n9001 S(enum=\"NopeT1\")\n9002 S(enum=\"NopeT2\")\n!ins_signatures\n9001 S(enum=\"NopeE1\")\n9002 S(enum=\"NopeE2\")\n"), false);
+    add("ecl07-two-language-unconsumed-attributes", "truecl", "th07", vec![], "void sub0() { ins_0(); }\nscript timeline0 {}\n".into(),
+        Some("!eclmap\n!ins_signatures\n9001 S(hex;bs=4;len=8;furibug)\n9002 f(bs=4;hex;nulless)\n!timeline_ins_signatures\n9001 S(bs=4;len=8;nulless)\n9002 f(len=8;hex;furibug)\n"), true);
     // -- several attributes that a parameter's format does not consume (one warning each, from one attribute table)
     add("msg06-unconsumed-attributes", "trumsg", "th06", vec![], format!("{MSG06_HEAD}script script0 {{ ins_100(1); ins_101(1.5); ins_0(); }}\nscript script1 {{ ins_0(); }}\n"),
         Some("!msgmap\n!ins_signatures\n100 S(hex;bs=4;len=8;mask=1,2,3;furibug;nulless)\n101 f(imm;bs=4;len=8;hex;arg0;nulless)\n102 z(bs=4;hex;imm;arg0;enum=\"bool\")\n"), true);
